@@ -13,13 +13,13 @@ import (
 func runCaseFp(f []string) (string, bool) {
 	switch f[0] {
 	case "fp_parse": // ParseJSONFloatPrefix on the raw bytes: ok bits n | err n
-		v, n, err := rjson.VerifFpParse(unhex(f[1]))
+		v, n, err := rjson.VerifFpParse(unhexWin(f[1]))
 		if err != nil {
 			return "err", true
 		}
 		return fmt.Sprintf("ok %d %d", math.Float64bits(v), n), true
 	case "fp_rf": // readFloat: mantissa exp neg trunc p ok
-		m, e, neg, trunc, p, ok := rjson.VerifFpReadFloat(unhex(f[1]))
+		m, e, neg, trunc, p, ok := rjson.VerifFpReadFloat(unhexWin(f[1]))
 		if !ok {
 			return "notok", true
 		}
@@ -41,13 +41,13 @@ func runCaseFp(f []string) (string, bool) {
 		}
 		return fmt.Sprintf("ok %d", math.Float64bits(v)), true
 	case "fp_dec": // decimal.set + floatBits on a complete literal
-		b, ovf, ok := rjson.VerifFpDecimal(unhex(f[1]))
+		b, ovf, ok := rjson.VerifFpDecimal(unhexWin(f[1]))
 		if !ok {
 			return "notok", true
 		}
 		return fmt.Sprintf("ok %d %s", b, b2s(ovf)), true
 	case "fp_strconv": // oracle: strconv.ParseFloat on the literal (must be a complete JSON number)
-		v, err := strconv.ParseFloat(string(unhex(f[1])), 64)
+		v, err := strconv.ParseFloat(string(unhexWin(f[1])), 64)
 		if err != nil {
 			if ne, ok := err.(*strconv.NumError); ok && ne.Err == strconv.ErrRange {
 				return "range", true
